@@ -130,9 +130,9 @@ def _fold(node, env):
                     r = left == right
                 elif isinstance(op, ast.NotEq):
                     r = left != right
-                elif isinstance(op, ast.In) and isinstance(right, (tuple, list, frozenset)):
+                elif isinstance(op, ast.In) and (isinstance(right, (tuple, list, frozenset)) or (isinstance(right, str) and isinstance(left, str))):
                     r = left in right
-                elif isinstance(op, ast.NotIn) and isinstance(right, (tuple, list, frozenset)):
+                elif isinstance(op, ast.NotIn) and (isinstance(right, (tuple, list, frozenset)) or (isinstance(right, str) and isinstance(left, str))):
                     r = left not in right
                 elif isinstance(op, ast.Is):
                     r = left is right
@@ -164,6 +164,12 @@ def _fold(node, env):
         raise _NoFold()
     if isinstance(node, ast.Call) and isinstance(node.func, ast.Name) and node.func.id == "set" and not node.args:
         return frozenset()
+    if isinstance(node, ast.Call) and isinstance(node.func, ast.Attribute) and node.func.attr in ("startswith", "endswith") and len(node.args) == 1 and not node.keywords:
+        recv = _fold(node.func.value, env)
+        arg = _fold(node.args[0], env)
+        if isinstance(recv, str) and (isinstance(arg, str) or (isinstance(arg, tuple) and all(isinstance(x, str) for x in arg))):
+            return recv.startswith(arg) if node.func.attr == "startswith" else recv.endswith(arg)
+        raise _NoFold()
     if isinstance(node, ast.Call) and isinstance(node.func, ast.Name) and node.func.id in ("int", "abs", "max", "min") and node.args and not node.keywords \
             and node.func.id not in env:
         vals = [_fold(a, env) for a in node.args]
